@@ -437,6 +437,48 @@ def removeChild (w : W) (label : String) : W × Res :=
     ({ w with children := w.children.filter (fun d => !(d.label == label)),
               g := Conn.disconnectChans w.g c.ids }, .ok)
 
+/-! ## `Workflow.replace_child` (same-labelled replacement: the structure; values are C14's) -/
+
+/-- the replacement's channel `cn` takes the place of `co` in the graph: it gets `co`'s
+connections, every partner now lists `cn` where it listed `co`, `co` is left unconnected
+(`copy_io` + `_seat_replacement` + the `disconnect()` of `remove_child`; the position inside
+the partners' lists is kept, which is C14's subject and of no consequence here) -/
+def moveConns (g : Conn.G) : List (Nat × Nat) → Conn.G
+  | [] => g
+  | (co, cn) :: rest =>
+    let ps := g.conns co
+    moveConns { g with conns := fun x =>
+      if x = cn then ps.map (fun y => if y = co then cn else y)
+      else if x = co then []
+      else (g.conns x).map (fun y => if y = co then cn else y) } rest
+
+/-- `Workflow.replace_child(label, new)` for an unconnected parentless `new` whose channel labels
+are those of the child it replaces (anything else is refused before anything changes — C14):
+first both panels are read (value links of the composite IO) — a panel that cannot be built
+raises before anything changed —, then the composite swaps the nodes (the replacement goes to
+the END of `children` under the old label, the replaced node is free), then `_rebuild_data_io`
+builds both panels — they are views of
+the children's channels, nothing has to be moved — and if one of them cannot be built the swap
+is undone at the composite level (which puts the OLD child at the end) and the error is raised. -/
+def replaceChild (w : W) (label : String) (new : Child) : W × Res :=
+  match w.children.find? (fun d => d.label == label) with
+  | none => (w, .refused)
+  | some old =>
+    if old.ins.map Prod.fst ≠ new.ins.map Prod.fst || old.outs.map Prod.fst ≠ new.outs.map Prod.fst then
+      (w, .refused)
+    -- the value links of the composite IO are collected first: `for … in self.inputs` and, per
+    -- output channel of the replaced node, `… in self.outputs` — a panel that cannot be built
+    -- raises here, before anything has changed
+    else if (w.panel .inputs).isNone || (!old.outs.isEmpty && (w.panel .outputs).isNone) then
+      (w, .typeErr)
+    else
+      let rest := w.children.filter (fun d => !(d.label == label))
+      let pairs := (old.ins.map Prod.snd).zip (new.ins.map Prod.snd) ++ (old.outs.map Prod.snd).zip (new.outs.map Prod.snd)
+      let g1 := registerChans (registerChans w.g .dataIn (new.ins.map Prod.snd)) .dataOut (new.outs.map Prod.snd)
+      let w' := { w with children := rest ++ [{ new with label := label }], g := moveConns g1 pairs }
+      if (w'.panel .inputs).isSome && (w'.panel .outputs).isSome then (w', .ok)
+      else ({ w with children := rest ++ [old], g := g1 }, .typeErr)
+
 inductive Op
   | add (c : Child)
   | remove (label : String)
@@ -455,6 +497,8 @@ inductive Op
   | read (s : Side)
   /-- an in-place edit of the live object the getter returned (no clean-up before or after) -/
   | edit (s : Side) (e : Edit)
+  /-- `wf.replace_child(label, new)` -/
+  | replace (label : String) (new : Child)
   deriving Repr
 
 def step (w : W) : Op → W × Res
@@ -476,6 +520,7 @@ def step (w : W) : Op → W × Res
   | .read .outputs => let r := readMap w.omap; ({ w with omap := r.1 }, r.2)
   | .edit .inputs e => let r := editStored w.imap e; ({ w with imap := r.1 }, r.2)
   | .edit .outputs e => let r := editStored w.omap e; ({ w with omap := r.1 }, r.2)
+  | .replace l c => replaceChild w l c
 
 /-- `wf.inputs` / `wf.outputs` as the code runs it: the getter cleans the stored map (state
 change; its exception escapes), then `_build_io` reads it -/
